@@ -103,3 +103,25 @@ Print Assumptions C05_check_func_decl_args_outcomes.
 Theorem C05_scope_step_total : forall q x, wf_chain (chain q) -> opens_ok x -> exists q', step q x = Some q' /\ wf_chain (chain q').
 Proof. exact step_total. Qed.
 Print Assumptions C05_scope_step_total.
+
+(* ---- second batch of translated checks (Gen/MoreChecks.v; Proofs/CrashFreeMore.v) *)
+From NV Require Import Gen.MoreChecks Proofs.CrashFreeMore.
+Theorem C05_check_utype_total_in_registry : forall toks scope ftype v t, peek toks (skip_ws toks 0) = Some t ->
+  exists r, check_utype_forbidden toks scope ftype v = Ok r.
+Proof. exact check_utype_total_in_registry. Qed.
+Print Assumptions C05_check_utype_total_in_registry.
+Theorem C05_check_utype_crash_without_token : forall toks scope v, peek toks (skip_ws toks 0) = None ->
+  check_utype_forbidden toks scope (s ".c") v = Crash AttributeError.
+Proof. exact check_utype_crash_without_token. Qed.
+Print Assumptions C05_check_utype_crash_without_token.
+(* CheckExpressionStatement: for every input a result or Context.skip_nest's CParsingError - no exception, no fuel exhaustion *)
+Theorem C05_check_expression_statement_outcomes : forall toks scope v,
+  (exists r, check_expression_statement toks scope v = Ok r) \/ (exists m, check_expression_statement toks scope v = Fatal m).
+Proof. exact check_expression_statement_outcomes. Qed.
+Print Assumptions C05_check_expression_statement_outcomes.
+(* CheckControlStatement never raises; its helper check_nest has no end-of-tokens test (`while depth > 0`), so on unbalanced
+   parentheses it would not return: Hang in the model - not reachable through IsControlStatement, which needs skip_nest to succeed *)
+Theorem C05_check_control_statement_outcomes : forall toks scope v, toks <> [] ->
+  (exists r, check_control_statement toks scope v = Ok r) \/ check_control_statement toks scope v = Hang.
+Proof. exact check_control_statement_outcomes. Qed.
+Print Assumptions C05_check_control_statement_outcomes.
